@@ -10,7 +10,10 @@ Definition spec_lookup (ts : list rtoken) (l c : Z) := spec_glb tok_key ts (l, c
 (* character classes of the test alphabet (re-checked against the crate by the harness) *)
 Definition cls_start (c : Z) : bool :=
   ((65 <=? c) && (c <=? 90)) || ((97 <=? c) && (c <=? 122)) || (c =? 36) || (c =? 95) || (c =? 233) || (c =? 15247) || (c =? 119964).
-Definition cls_cont (c : Z) : bool := cls_start c || ((48 <=? c) && (c <=? 57)) || (c =? 8204) || (c =? 8205).
+(* ID_Continue but not ID_Start in the alphabet: digits, ZWNJ / ZWJ, a combining mark (U+0301), a non-ASCII digit (U+0661),
+   connector punctuation (U+203F), the middle dot (U+00B7) *)
+Definition cls_cont (c : Z) : bool := cls_start c || ((48 <=? c) && (c <=? 57)) || (c =? 8204) || (c =? 8205)
+  || (c =? 769) || (c =? 1633) || (c =? 8255) || (c =? 183).
 Definition cls_ws (c : Z) : bool := (c =? 32) || ((9 <=? c) && (c <=? 13)) || (c =? 160) || (c =? 8232) || (c =? 8233).
 Definition name_res := get_original_function_name cls_start cls_cont cls_ws 128.
 Definition name_res_spec := spec_resolve cls_start cls_cont cls_ws 128.
